@@ -946,7 +946,7 @@ Qed.
 (* the two corners edges_bounding_box hands to with_corners *)
 Definition ebb_corners (t : thick_segment) : point * point :=
   let '(r, l) := ts_edges t in
-  if is_skeleton t then (l_start l, l_end l)
+  if is_skeleton t then (l_start r, l_end r)
   else (component_min (component_min (component_min (l_start r) (l_end r)) (l_start l)) (l_end l),
         component_max (component_max (component_max (l_start r) (l_end r)) (l_start l)) (l_end l)).
 
@@ -1245,24 +1245,24 @@ Qed.
 Definition seg_corner (t : thick_segment) (p : point) : Prop :=
   p = l_start (fst (ts_edges t)) \/ p = l_end (fst (ts_edges t)) \/
   p = l_start (snd (ts_edges t)) \/ p = l_end (snd (ts_edges t)).
-(* ... and the two of its left edge *)
-Definition seg_left_corner (t : thick_segment) (p : point) : Prop :=
-  p = l_start (snd (ts_edges t)) \/ p = l_end (snd (ts_edges t)).
+(* ... and the two of its right edge, the one ThickSegment::intersection draws for a skeleton *)
+Definition seg_drawn_corner (t : thick_segment) (p : point) : Prop :=
+  p = l_start (fst (ts_edges t)) \/ p = l_end (fst (ts_edges t)).
 
 Lemma ebb_corners_cover t p :
-  (is_skeleton t = false /\ seg_corner t p) \/ (is_skeleton t = true /\ seg_left_corner t p) ->
+  (is_skeleton t = false /\ seg_corner t p) \/ (is_skeleton t = true /\ seg_drawn_corner t p) ->
   ple (component_min (fst (ebb_corners t)) (snd (ebb_corners t))) p /\
   ple p (component_max (fst (ebb_corners t)) (snd (ebb_corners t))).
 Proof.
-  unfold ebb_corners, seg_corner, seg_left_corner. destruct (ts_edges t) as [r l]. cbn [fst snd].
+  unfold ebb_corners, seg_corner, seg_drawn_corner. destruct (ts_edges t) as [r l]. cbn [fst snd].
   intros [[E H]|[E H]]; rewrite E; cbn [fst snd]; unfold ple, component_min, component_max; cbn [px py].
   - destruct H as [-> | [-> | [-> | ->]]]; repeat split; lia.
   - destruct H as [-> | ->]; repeat split; lia.
 Qed.
 
-(* every corner of every non-skeleton segment, and the left edge of every skeleton segment, is inside the box *)
+(* every corner of every non-skeleton segment, and the drawn (right) edge of every skeleton segment, is inside the box *)
 Lemma segments_bounding_box_contains segs seg p : In seg segs ->
-  (is_skeleton seg = false /\ seg_corner seg p) \/ (is_skeleton seg = true /\ seg_left_corner seg p) ->
+  (is_skeleton seg = false /\ seg_corner seg p) \/ (is_skeleton seg = true /\ seg_drawn_corner seg p) ->
   contains (segments_bounding_box segs) p = true.
 Proof.
   intros I H. rewrite segments_bounding_box_fold.
@@ -1271,79 +1271,12 @@ Proof.
   apply contains_with_corners; unfold ple; lia.
 Qed.
 
-(* the class of the recorded defect: a segment of a stroke wider than 1 px that is taken for a skeleton *)
-Definition K02_thick_skeleton_bbox (segs : list thick_segment) : bool := existsb is_skeleton segs.
-
-Lemma segments_bounding_box_contains_all segs seg p :
-  K02_thick_skeleton_bbox segs = false -> In seg segs -> seg_corner seg p ->
+(* the edge a skeleton is drawn along is inside the box for EVERY segment (repair 3241194; before it the box of a
+   skeleton was taken from the other edge, finding K02_thick_skeleton_bbox) *)
+Lemma segments_bounding_box_contains_drawn segs seg p : In seg segs -> seg_drawn_corner seg p ->
   contains (segments_bounding_box segs) p = true.
 Proof.
-  intros K I C. apply (segments_bounding_box_contains segs seg p I). left. split; [|exact C].
-  unfold K02_thick_skeleton_bbox in K. destruct (is_skeleton seg) eqn:E; [|reflexivity].
-  assert (existsb is_skeleton segs = true) by (apply existsb_exists; exists seg; split; assumption). congruence.
+  intros I C. apply (segments_bounding_box_contains segs seg p I).
+  destruct (is_skeleton seg); [right | left]; (split; [reflexivity|]); [exact C|].
+  unfold seg_corner. unfold seg_drawn_corner in C. tauto.
 Qed.
-
-(* ================================================================================================ *)
-(* (8) thick triangles (Model/JoinTri.v): what is proved, what is open                               *)
-(* ================================================================================================ *)
-From EG Require Import Model.JoinTri.
-
-Definition tr_tri (d : point) (t : tri3) : tri3 :=
-  let '(p1, p2, p3) := t in (padd p1 d, padd p2 d, padd p3 d).
-
-(* no used intersection of the three joins of the triangle reaches the saturating cast, before and after the move *)
-Definition tri_nosat (t : tri3) (w : Z) (so : stroke_offset) (d : point) : bool :=
-  let '(p1, p2, p3) := t in
-  win_nosat w so d (p3, p1, p2) && win_nosat w so d (p1, p2, p3) && win_nosat w so d (p2, p3, p1).
-
-Lemma vtx_tr d t i : vtx (tr_tri d t) i = padd (vtx t i) d.
-Proof. destruct t as [[p1 p2] p3]. unfold vtx, tr_tri. destruct (Nat.modulo i 3) as [|[|k]]; reflexivity. Qed.
-
-Lemma tri_nosat_win t w so d i : tri_nosat t w so d = true ->
-  win_nosat w so d (vtx t i, vtx t (i + 1), vtx t (i + 2)) = true.
-Proof.
-  destruct t as [[p1 p2] p3]. unfold tri_nosat. intros H.
-  apply andb_true_iff in H as [H H3]. apply andb_true_iff in H as [H1 H2].
-  unfold vtx.
-  assert (M : forall k, Nat.modulo (k + 1) 3 = Nat.modulo (Nat.modulo k 3 + 1) 3).
-  { intros k. rewrite (Nat.add_mod k 1 3) by discriminate. reflexivity. }
-  assert (M2 : forall k, Nat.modulo (k + 2) 3 = Nat.modulo (Nat.modulo k 3 + 2) 3).
-  { intros k. rewrite (Nat.add_mod k 2 3) by discriminate. reflexivity. }
-  rewrite M, M2. pose proof (Nat.mod_upper_bound i 3 ltac:(discriminate)) as U.
-  destruct (Nat.modulo i 3) as [|[|[|k]]]; cbn; try assumption. lia.
-Qed.
-
-(* the scanline of one thick edge of the stroke (scanline_intersections.rs:86-106) moves with the triangle *)
-Lemma jt_edge_scanline_rel t w so d idx y : tri_nosat t w so d = true ->
-  match jt_edge_scanline t w so idx y, jt_edge_scanline (tr_tri d t) w so idx (y + py d) with
-  | Some s, Some s' => sl_rel d s s'
-  | None, None => True
-  | _, _ => False
-  end.
-Proof.
-  intros N. unfold jt_edge_scanline. rewrite !vtx_tr.
-  pose proof (win_join_translate w so d _ (tri_nosat_win t w so d idx N)) as W1. cbn [fst snd] in W1.
-  pose proof (win_join_translate w so d _ (tri_nosat_win t w so d (idx + 1) N)) as W2. cbn [fst snd] in W2.
-  replace (idx + 1 + 1)%nat with (idx + 2)%nat in W2 by lia. replace (idx + 1 + 2)%nat with (idx + 3)%nat in W2 by lia.
-  rewrite W1, W2.
-  destruct (lj_from_points (vtx t idx) (vtx t (idx + 1)) (vtx t (idx + 2)) w so) as [sj|]; cbn [option_map]; [|trivial].
-  destruct (lj_from_points (vtx t (idx + 1)) (vtx t (idx + 2)) (vtx t (idx + 3)) w so) as [ej|]; cbn [option_map]; [|trivial].
-  exact (ts_intersection_rel d (TS sj ej) y).
-Qed.
-
-(* OPEN: C07_join_triangle_translate :
-     forall t w al fill d, tri_nosat (jt_sorted_clockwise t) w (so_of_alignment al) d = true -> <box within +-2^29> ->
-       jt_pixels (tr_tri d t) w al fill = option_map (map (fun pc => (padd (fst pc) d, snd pc))) (jt_pixels t w al fill)
-     and the same for jt_draw / jt_styled_bounding_box.
-   Every ingredient is proved above (joins, extents, check_side, thick segment scanlines, scanline merging, the
-   bounding box fold and Rectangle::rows); what is missing is the bookkeeping through jt_edge_step /
-   jt_edge_intersections / jt_row / jt_is_collapsed / jt_sorted_clockwise and the three iteration sequences of
-   JoinTri.v.  Proved instead: jt_edge_scanline_rel (C07_join_triangle_edge_scanline_translate_partial).  The executable
-   model of the whole triangle pipeline is compared with the implementation (suites join_tri_pixels / join_tri_rects /
-   join_tri_bbox) and the property itself is searched by p_translate. *)
-
-(* OPEN: C07_join_hypotheses_from_coordinates :
-     a bound B (and W) such that |coordinates| <= B, width <= W imply poly_hyps pts w d.  This needs a bound on the
-     distance between a line and its extents (an invariant through the ParallelsIterator walk) and a bound on the
-     used intersection point (den^2 >= |dot| when nearly_colinear_has_error is false).  The model oracle evaluates
-     poly_hyps on every generated case (suite join_poly_hyp: coordinates up to +-2^13, widths up to 64; always true so far). *)
